@@ -33,16 +33,34 @@ func (d *decodeCase) witness(target string, src string) map[string]any {
 
 // decodeInto runs the real decoder on doc++trailer into a fresh value of type t and
 // returns (value, root name, bytes consumed, error).
+var quirkR *vm.Rand
+
 func decodeInto(c *vm.Ctx, d *decodeCase, t reflect.Type, plain bool, sub string) (rv reflect.Value, name string, consumed int, err error, panicked bool) {
 	in := append(append([]byte{}, d.doc...), d.trailer...)
 	ptr := reflect.New(t)
 	var rd io.Reader
 	br := bytes.NewReader(in)
 	pr := &inject.PlainReader{R: bytes.NewReader(in)}
+	var qr *inject.QuirkReader
 	src := "bytes.Reader"
 	if plain {
 		rd = pr
 		src = "plain io.Reader"
+		// every fourth plain source uses the liberties of the io.Reader contract: reads that make no progress,
+		// and the last byte delivered together with io.EOF
+		if quirkR == nil {
+			quirkR = c.Rand("quirk")
+		}
+		switch quirkR.Intn(8) {
+		case 0:
+			qr = &inject.QuirkReader{B: in, Stutter: true}
+			rd, src = qr, "plain io.Reader with zero-progress reads"
+			c.Cover("src.plainreader.zero-progress-reads")
+		case 1:
+			qr = &inject.QuirkReader{B: in, DataEOF: true}
+			rd, src = qr, "plain io.Reader delivering data with EOF"
+			c.Cover("src.plainreader.data-with-eof")
+		}
 	} else {
 		rd = br
 	}
@@ -51,9 +69,12 @@ func decodeInto(c *vm.Ctx, d *decodeCase, t reflect.Type, plain bool, sub string
 		dec.NetworkFormat(d.network)
 		name, err = dec.Decode(ptr.Interface())
 	})
-	if plain {
+	switch {
+	case qr != nil:
+		consumed = qr.Pos
+	case plain:
 		consumed = int(pr.N)
-	} else {
+	default:
 		consumed = len(in) - br.Len()
 	}
 	return ptr.Elem(), name, consumed, err, panicked
